@@ -30,6 +30,9 @@ def uses_outside_shape(v, name):
     return walk(v)
 
 
+from ..npmodel import P as P_
+
+
 def conv_form(ret):
     """ret = c * abs(ifft2(fft2(img) * kernel)) -> (outer factor, kernel) or None."""
     absx = [a for a in ret.atoms(deep=False) if is_app(a, 'abs')] if isinstance(ret, Poly) else []
@@ -150,6 +153,18 @@ def run(chk, repo, tier):
                        f'result {fmt(p.ret)[:200]} is not c*|ifft2(fft2(img)*kernel)|', f.loc(p.node))
                 continue
             absatom, prod, kernel = cf
+            # the transfer function is used as it was computed: no entries overwritten afterwards, no cast to the element type
+            # of the frame (an integer frame would turn every gain below 1 into 0)
+            ka_ = kernel.single_atom() if isinstance(kernel, Poly) else None
+            tampered = ''
+            for x_ in nf.value_atoms(kernel) | ({ka_} if ka_ else set()):
+                if is_app(x_, 'setitem') and len(x_[2]) == 3 and isinstance(x_[2][2], Poly) and x_[2][2].const_value() is not None:
+                    tampered = f'kernel[{fmt(x_[2][1])[:50]}] = {fmt(x_[2][2])} overwrites the transfer function there'
+                if is_app(x_, ('cast', 'm:astype')) and len(x_[2]) > 1 and ('sym', 'img') in nf.value_atoms(x_[2][1] if isinstance(x_[2][1], Poly) else P_(x_[2][1])):
+                    tampered = f'the transfer function is cast to {fmt(x_[2][1])[:30]}: for an integer frame every gain below 1 becomes 0'
+            if key != 'detector.pixel' or tampered:
+                chk.ob('C19-e', 'N-const', key, f'the transfer function is applied as computed [{tag[:60]}]', not tampered,
+                       tampered or 'no overwritten entries, no cast to the frame type', f.loc(p.node))
             indep = not uses_outside_shape(kernel, 'img')
             chk.ob('C19-c', 'D-must-not-depend', key, f'kernel independent of the pixel values [{tag}]', indep,
                    f'kernel = {fmt(kernel)[:200]}' + ('' if indep else ' depends on the pixel values'), f.loc(p.node))
@@ -288,7 +303,7 @@ def run(chk, repo, tier):
                             bad_div.append(f'({fmt(d)[:60]})**{fmt(e.data["right"])} at {e.loc()}')
                 chk.ob('C19-d', 'N-dc', key, f'zero extent is evaluated without dividing by it [{tag}]', not bad_div,
                        '; '.join(bad_div[:2]) or 'no divisor vanishes with the extent', f.loc(p.node))
-            if key != 'detector.pixel':
+            if key != 'detector.pixel' or p.ret / absatom != Poly.const(1):
                 # C19-f: ret = out * sum(img)/sum(out)
                 out = absatom
                 c = p.ret / out
